@@ -9,16 +9,16 @@ GLOBAL_ASSUMPTIONS = [
     'no unsafe code is in any function under contract',
 ]
 
-LEXER_BOUNDED = ('sub-lexer contracts found_ok for lex_spaces/lex_tabs/lex_newlines (Kani-bounded len<=5 quick, <=8 thorough), lex_hex_number, lex_hostname_token, '
-                 'lex_url, lex_email_address (Kani-bounded, thorough tier only) are ASSUMED by the Verus unit `lexing`; found_ok for lex_number is assumed and checked by nothing')
+LEXER_BOUNDED = ('sub-lexer contracts found_ok for lex_spaces/lex_tabs/lex_newlines (Kani-bounded len<=5 quick, <=8 thorough), lex_hostname_token and lex_url (Kani-bounded len<=4, thorough tier; most of the URL scanner is also proved in unit url) '
+                 'are ASSUMED by the Verus unit `lexing`; found_ok for lex_hex_number, lex_email_address and lex_number is assumed and checked by no verifier (CBMC: unwinding / time-out even at length 4 resp. 2) - only by the bounded runtime check rac:lexers')
 
 PROPS = {
     'C01': dict(
         level='proof',
         verus=['span', 'patterns', 'lexing', 'url', 'jsdoc', 'edit_distance', 'mask', 'document'],
         kani_quick=['lexing.whitespace_5', 'jsdoc.parse_inline_tag_4', 'jsdoc.parse_inline_tag_5'],
-        rac=['document_tiles', 'remove_indices', 'condense_indices', 'markdown_tokens', 'comment_frontends'],
-        kani_thorough=['lexing.whitespace_5', 'lexing.whitespace_8', 'lexing.hex_4', 'lexing.hostname_4', 'lexing.url_4', 'lexing.email_4',
+        rac=['lexers', 'url_scanner', 'document_tiles', 'remove_indices', 'condense_indices', 'markdown_tokens', 'comment_frontends', 'lhs_frontend'],
+        kani_thorough=['lexing.whitespace_5', 'lexing.whitespace_8', 'lexing.hostname_4', 'lexing.url_4',
                        'jsdoc.parse_inline_tag_4', 'jsdoc.parse_inline_tag_5', 'jsdoc.parse_inline_tag_6'],
         unverified=[
             'every rule body (match_to_lint / lint of ~290 rules); LintGroup::lint, Document::parse as a whole and its pattern-based passes (contractions, ellipsis, latin), match_quotes, articles_imply_nouns: covered by the bounded RAC stand-ins only',
@@ -36,8 +36,8 @@ PROPS = {
         level='proof',
         verus=['lexing', 'url', 'number', 'mask', 'document'],
         kani_quick=['lexing.whitespace_5'],
-        kani_thorough=['lexing.whitespace_5', 'lexing.whitespace_8', 'lexing.hex_4', 'lexing.hostname_4', 'lexing.url_4', 'lexing.email_4'],
-        rac=['document_tiles', 'remove_indices', 'condense_indices', 'markdown_tokens'],
+        kani_thorough=['lexing.whitespace_5', 'lexing.whitespace_8', 'lexing.hostname_4', 'lexing.url_4'],
+        rac=['lexers', 'url_scanner', 'document_tiles', 'remove_indices', 'condense_indices', 'markdown_tokens'],
         unverified=[
             'tiling preservation is PROVED for condense_spaces, condense_dotted_initialisms, condense_number_suffixes (the latter modulo the condense_indices contract: peekable() body, bounded-rac); condense_newlines (safety only: it does not preserve tiling on Newline Newline X Newline), condense_contractions/ellipsis/latin (thread_local patterns), match_quotes, newlines_to_breaks and Document::parse as a whole are covered by the bounded stand-in rac:document_tiles only',
             'every front-end other than plain English (Markdown byte/char bookkeeping, Mask::parse, CollapseIdentifiers, IsolateEnglish, comment parsers, HTML, Typst, LHS, git commit)',
@@ -50,7 +50,7 @@ PROPS = {
         level='proof',
         verus=['span', 'suggestion', 'patterns', 'number_lint'],
         kani_quick=[], kani_thorough=[],
-        rac=['lint_group_cache'],
+        rac=['lint_group_cache', 'rule_spans'],
         unverified=[
             'that each of the ~290 rules reports a span with start <= end <= text length (match_to_lint / lint bodies are not under contract); run_on_chunk only guarantees them a non-empty in-bounds sub-slice of the chunk',
             'LintGroup::lint chunk-cache rebase call sites (LruCache, BTreeMap<String, Box<dyn Linter>>): only the pull/push arithmetic is proved (lemma_rebase, Span::pulled_by/pushed_by)',
@@ -79,7 +79,7 @@ PROPS = {
         level='proof',
         verus=['overlaps', 'overlaps32'],
         kani_quick=[], kani_thorough=[],
-        rac=['remove_indices'],
+        rac=['remove_indices', 'remove_overlaps', 'currency_conflict_free'],
         unverified=[
             'VecExt::remove_indices body (Vec::retain with a stateful closure): contract assumed in Verus, executed exhaustively for every length <= 12 and every strictly increasing index list (bounded-rac, not proved)',
             'callers in harper-wasm / harper-cli / currency_placement.rs and that lints handed to remove_overlaps have start <= end (the precondition)',
